@@ -12,6 +12,7 @@ import sys
 from vlib import behave, core, pyrun, srcpos
 
 ID = "C06"
+READY = True
 LEVEL = "exploration"
 RULE = ("signature shape (0-4 plain/defaulted parameters, optional *args, **kw, keyword-only) x host kind "
         "(function, method, classmethod, staticmethod, constructor) x 6-10 call sites per function in 2 client "
@@ -302,9 +303,21 @@ def run_case(spec):
                 cs_ = ChangeSignature(project, project.get_file(path), offset)
                 return cs_.get_changes(build_changers(seq, cs_.get_args()))
 
-            starred = "+".join(x for x in ("star", "dstar") if x in shapes) or "none"
-            feats = f"host={host}|sig={sigfeat or 'plain'}|changers={kinds}|starred-calls={starred}"
-            out = behave.judge(case, request, res, "change-signature", feats,
+            # request classes in which rope's ChangeSignature is known to be unreliable share one coarse key
+            label = None
+            if "!illegal" in kinds:
+                label = "illegal-reorder-without-autodef"
+            elif "dstar" in shapes:
+                label = "call-with-double-star-mapping"
+            elif "star" in shapes:
+                label = "call-with-star-sequence"
+            elif sigfeat:
+                label = "signature-with-" + sigfeat
+            if label:
+                feats = "hostile:" + label
+            else:
+                feats = f"core|host={host}|changers={kinds}"
+            out = behave.judge(case, request, res, "change-signature", feats, coarse=bool(label),
                                detail={"files": files, "changers": seq, "query": [path, offset], "call_shapes": shapes})
             if out in ("preserved", "violation"):
                 res.ev("performed_and_run")
